@@ -1,5 +1,5 @@
 # replay of a bounded stand-in violation (C04): re-run native/c04_reorder.py
 import sys
-print("optimize [Fock(2), Coherent(0.4)]: the optimised program ['Fock(2) | (q[0])'] prepares a different state (moments [0.0, 5.0, 0.0, 5.0, 0.0, 5.0, 2.0, 0.0] vs [0.7841, 1.0, 0.6119, 1.0, 0.1589, 1.0, 0.16, 0.16])")
+print('gbs compile [mode 0 deleted, modes 2,1 measured] raised IndexError: tuple index out of range')
 print('REPLAY-VIOLATION')
 sys.exit(1)
